@@ -66,4 +66,22 @@ theorem c16_one_at_a_time (run : ι → Nat → ο) (inp : ι) (order : List Nat
   rw [runSchedule_slot, runSchedule_slot]
   simp [ht]
 
+/-- **Serial = parallel** when no time point changes the input object: the state-passing serial run produces, time point by time
+point, what the workers of a parallel run produce from their own copies -/
+theorem c16_serial_eq_parallel (step : ι → Nat → ο × ι) (i : ι) (ts : List Nat) (h : ∀ t ∈ ts, (step i t).2 = i) :
+    serialRun step i ts = parallelRun step i ts := by
+  induction ts with
+  | nil => rfl
+  | cons t rest ih =>
+    have ht : (step i t).2 = i := h t (by simp)
+    simp only [serialRun, parallelRun, List.map_cons, ht]
+    congr 1
+    exact ih (fun u hu => h u (List.mem_cons_of_mem _ hu))
+
+/-- a time point that writes into the input object (a snapped table height, a material left at its last temperature) makes the
+later time points of a serial run differ from the parallel ones -/
+theorem c16_run_mutation_counter :
+    let step : Nat → Nat → Nat × Nat := fun i t => (i + t, i + 1)
+    serialRun step 0 [1, 2] = [1, 3] ∧ parallelRun step 0 [1, 2] = [1, 2] := by decide
+
 end Dassh.Props.C16
